@@ -132,6 +132,35 @@ CLAIMED.update({
         ref='DESIGN.md section 5 C20'),
 })
 
+CLAIMED.update({
+    'C04': dict(
+        text='Coq theorem (props/C04.v) on an object-store model of the exhaustive search: although one diagnostics object '
+             'per treatment group is reused and overwritten for every control group, at the end every stored design\'s two '
+             'diagnostics objects hold the series of exactly its own groups and no object is shared. The numeric half is '
+             'decided by execution: for every returned design of both searches, diag.x / diag.y are compared bit for bit with '
+             'the sums of the raw input rows of the reported IDs over the most recent window, and corr, required impact, the '
+             'four tests and the score with a fresh recomputation; search results are also compared with the model.',
+        note=SEARCH_NOTE + ' The store model is hand-written; its tie to the code is the executed oracle.',
+        technique='Rocq/Coq proof (aliasing invariant of an object store) + executed correspondence + direct oracle',
+        ref='DESIGN.md section 5 C04'),
+    'C10': dict(
+        text='Coq theorems (props/C10.v): the size ranges the greedy search fills in on its private copy of the parameters '
+             'leave treatment_group_size_range unchanged and every other field untouched; result retrieval is a pure '
+             'function of the stored heap. The property itself is decided by executed call sequences: 3-10 random calls over '
+             '13 public methods on one object, every answer compared with a freshly built object, parameters compared '
+             'before/after; queries are also compared with the model.',
+        note=SEARCH_NOTE + ' History-independence of the model is by construction (pure functions); the proof covers the one piece of state the code keeps.',
+        technique='Rocq/Coq proof (equivalence of filled and unspecified ranges) + executed call sequences against fresh '
+                  'objects + correspondence of the queries', ref='DESIGN.md section 5 C10'),
+    'C12': dict(
+        text='Coq theorems (props/C12.v): the bounded heap and the whole exhaustive search depend on the score oracle only '
+             'through comparisons, so order-isomorphic scores (before/after positive rescaling; tuples vs dense ranks) give '
+             'identical results. Executed metamorphic pairs for both searches: shuffled rows + shifted dates, injective '
+             'renaming, integer IDs, scaling by 2^k with the budget range (bit-exact comparison).',
+        note=SEARCH_NOTE + ' Numeric scale laws of the kernels and the canonicalisation of the input are tied by the executed pairs; domain: distinct geo means, no score ties.',
+        technique='Rocq/Coq proof (comparison lemma) + executed metamorphic pairs', ref='DESIGN.md section 5 C12'),
+})
+
 NOT_YET = 'check not built yet in this revision (model under construction; see DESIGN.md section 10)'
 NA = {}
 
